@@ -3,3 +3,23 @@ open ZCV.Props.C14
 #print axioms C14_no_equals_refused
 #print axioms C14_empty_component_refused
 #print axioms C14_wellformed_accepted
+#print axioms C14_override_eq_editNorm
+#print axioms C14_override_eq_edit
+#print axioms C14_override_eq_edit_outcome
+#print axioms C14_rejected_iff
+#print axioms C14_no_overrides
+#print axioms C14_edit_tyCanon
+#print axioms C14_override_denote
+#print axioms C14_text_override_eq_edit
+#print axioms C14_text_eq_tree
+#print axioms C14_keyIdem_stock
+#print axioms C14_verbatim
+#print axioms C14_unknown_section_rejected
+#print axioms C14_key_not_allowed_rejected
+#print axioms C14_bad_value_is_conversion_error
+#print axioms C14_bad_key_is_conversion_error
+#print axioms C14_error_eq_edit_error
+#print axioms C14_nonident_component_rejected
+#print axioms C14_not_ovsOK_rejected
+#print axioms C14_key_as_given_needs_idempotence
+#print axioms Ex.edit1
